@@ -109,7 +109,7 @@ func vsIntRange(fr *frame, a []value) value {
 		panic(engineAbort{"assume", "empty IntRange"})
 	}
 	x := in.rangeNondet(argString(a[0]), lo, hi)
-	return int(int64(in.needPath().Concretize(x)))
+	return in.enumNondet(x, lo, hi)
 }
 
 func vsSymRange(fr *frame, a []value) value {
@@ -129,7 +129,17 @@ func vsChoice(fr *frame, a []value) value {
 		panic(engineAbort{"assume", "empty Choice"})
 	}
 	x := in.rangeNondet(argString(a[0]), 0, n-1)
-	return int(int64(in.needPath().Concretize(x)))
+	return in.enumNondet(x, 0, n-1)
+}
+
+// enumNondet enumerates the values of the range variable just created by rangeNondet.
+func (in *interpreter) enumNondet(x *Term, lo, hi int64) value {
+	p := in.needPath()
+	if lo >= 0 {
+		sym := p.nondets[len(p.nondets)-1].Sym
+		return int(int64(p.EnumRange(x, sym, uint64(lo), uint64(hi))))
+	}
+	return int(int64(p.Concretize(x)))
 }
 
 func vsBytes(fr *frame, a []value) value {
